@@ -65,10 +65,12 @@ type target struct {
 	// the fragment is the definition of ITS generated file (imported), one outside the fragment is taken by the
 	// hand-written model (modelCalls)
 	structs map[string]string // "importpath.Name" of a struct type without a model counterpart -> Lean structure to declare
-	props   string            // the tie module (relative to lean/): a translated function without a `when_translated Gen.X in`
+	base    string            // another target of the same package whose generated file is imported: only the functions it
+	// does not translate are emitted
+	props string // the tie module (relative to lean/): a translated function without a `when_translated Gen.X in`
 	// guard there, and that no guarded function calls, is written to <out>_untied.lean, which no property imports
-	only    string            // translate only the functions of this source file
-	ext     bool              // extended fragment: loops (loops.go), strings, word slices, run-time panics as `none`
+	only string // translate only the functions of this source file
+	ext  bool   // extended fragment: loops (loops.go), strings, word slices, run-time panics as `none`
 }
 
 // rules of the package a function belongs to (an auxiliary package keeps the rules of its own target)
@@ -129,7 +131,7 @@ var targets = map[string]*target{
 		ext: true, imports: []string{"Lemmas.GenAttr", "Lemmas.GenLoop"}, what: "package xmath (bitset.go)", check: "C08", props: "Props/C08Gen.lean",
 		structs: map[string]string{xmathPath + ".BitSet": "BitSet_"}, only: "bitset.go"},
 	"numloops": {name: "numloops", pkgs: []string{pkgPath}, prefix: map[string]string{pkgPath: ""}, display: map[string]string{pkgPath: ""},
-		bits: true, ext: true, imports: []string{"Model.U128", "Model.I128", "Lemmas.GenAttr", "Lemmas.GenLoop"}, what: "package xmath/num (with loops)", check: "C01", props: "Props/C01GenLoops.lean"},
+		bits: true, ext: true, base: "num", imports: []string{"Generated.SSA_Num", "Lemmas.GenLoop"}, what: "package xmath/num (the functions with loops and divisions)", check: "C01", props: "Props/C01GenLoops.lean"},
 }
 
 var cur = targets["num"]
@@ -627,6 +629,7 @@ type fnTrans struct {
 	monadic bool // the result is an `Option`
 	fueled  bool // the definition takes `fuel`
 	selfRec bool
+	guards  []string // conditions under which the instruction being translated does not panic
 	defs    []string // the loop functions, in the order they are completed
 	resT    string
 }
@@ -1146,7 +1149,13 @@ func (t *fnTrans) walk(b *ssa.BasicBlock, predIdx int, e *env, stop *ssa.BasicBl
 				t.bind(i, v, e, &out)
 			}
 		case *ssa.BinOp:
-			t.bind(i, t.binop(i, e), e, &out)
+			v := t.binop(i, e)
+			for _, gd := range t.guards {
+				t.monadic = true
+				fmt.Fprintf(&out, "(Gen.guard (%s)).bind fun _ =>\n", gd)
+			}
+			t.guards = nil
+			t.bind(i, v, e, &out)
 		case *ssa.Field:
 			s := t.get(i.X, e)
 			if s.k != kStruct {
@@ -1883,10 +1892,15 @@ func (t *fnTrans) binop(i *ssa.BinOp, e *env) val {
 			fail("division by the constant zero")
 		}
 		if y.cst == nil {
-			if !pkgAllowDiv(t.f.Pkg) {
-				fail("division by a non-constant (panics when the divisor is zero)")
+			if cur.ext {
+				// Go panics when the divisor is zero: explicit partiality
+				t.guards = append(t.guards, par(y)+" ≠ "+lit(big.NewInt(0), w).e)
+			} else {
+				if !pkgAllowDiv(t.f.Pkg) {
+					fail("division by a non-constant (panics when the divisor is zero)")
+				}
+				t.partial = append(t.partial, "panics when the divisor "+y.e+" is zero")
 			}
-			t.partial = append(t.partial, "panics when the divisor "+y.e+" is zero")
 		}
 		_ = w
 		if signed {
@@ -2316,36 +2330,66 @@ func main() {
 		byPath[p.PkgPath] = p
 	}
 	prog, _ := ssautil.AllPackages(pkgs, ssa.BuilderMode(0))
-	g := &gen{prog: prog, names: map[*ssa.Function]string{}, lname: map[*ssa.Function]string{},
-		state: map[*ssa.Function]int{}, reason: map[*ssa.Function]string{}, text: map[*ssa.Function]string{},
-		globals: map[*ssa.Global]*global{}, gbad: map[*ssa.Global]string{}, pkgs: map[*ssa.Package]*packages.Package{},
-		partial: map[*ssa.Function]string{}, aux: map[*ssa.Package]bool{}, modelTaken: map[string]string{},
-		need: map[*ssa.Function]map[string]bool{}, callees: map[*ssa.Function][]*ssa.Function{}, fueledFn: map[*ssa.Function]bool{}, monadicFn: map[*ssa.Function]bool{}}
-	nOwn := 0
-	for k, path := range append(append([]string{}, cur.pkgs...), cur.aux...) {
-		tp := byPath[path]
-		if tp == nil {
-			fmt.Fprintln(os.Stderr, "package not loaded:", path)
-			os.Exit(1)
+	build := func() *gen {
+		g := &gen{prog: prog, names: map[*ssa.Function]string{}, lname: map[*ssa.Function]string{},
+			state: map[*ssa.Function]int{}, reason: map[*ssa.Function]string{}, text: map[*ssa.Function]string{},
+			globals: map[*ssa.Global]*global{}, gbad: map[*ssa.Global]string{}, pkgs: map[*ssa.Package]*packages.Package{},
+			partial: map[*ssa.Function]string{}, aux: map[*ssa.Package]bool{}, modelTaken: map[string]string{},
+			need: map[*ssa.Function]map[string]bool{}, callees: map[*ssa.Function][]*ssa.Function{}, fueledFn: map[*ssa.Function]bool{}, monadicFn: map[*ssa.Function]bool{}}
+		nOwn := 0
+		for k, path := range append(append([]string{}, cur.pkgs...), cur.aux...) {
+			tp := byPath[path]
+			if tp == nil {
+				fmt.Fprintln(os.Stderr, "package not loaded:", path)
+				os.Exit(1)
+			}
+			sp := prog.Package(tp.Types)
+			if sp == nil {
+				fmt.Fprintln(os.Stderr, "no SSA package for", path)
+				os.Exit(1)
+			}
+			sp.Build()
+			g.pkgs[sp] = tp
+			g.collect(sp)
+			if k < len(cur.pkgs) {
+				nOwn = len(g.fns)
+			} else {
+				g.aux[sp] = true
+			}
 		}
-		sp := prog.Package(tp.Types)
-		if sp == nil {
-			fmt.Fprintln(os.Stderr, "no SSA package for", path)
-			os.Exit(1)
+		own := g.fns[:nOwn] // the functions of auxiliary packages are translated on demand only, and never emitted
+		g.fns = own
+		for _, f := range g.fns {
+			g.translate(f)
 		}
-		sp.Build()
-		g.pkgs[sp] = tp
-		g.collect(sp)
-		if k < len(cur.pkgs) {
-			nOwn = len(g.fns)
-		} else {
-			g.aux[sp] = true
-		}
+		return g
 	}
-	own := g.fns[:nOwn] // the functions of auxiliary packages are translated on demand only, and never emitted
-	g.fns = own
-	for _, f := range g.fns {
-		g.translate(f)
+	// base: the functions that the generated file of ANOTHER target of the same package already defines (it is imported)
+	inBase := map[string]bool{}
+	baseGlobals := map[string]bool{}
+	if cur.base != "" {
+		saved := cur
+		cur = targets[cur.base]
+		g0 := build()
+		for _, f := range g0.fns {
+			if g0.state[f] == 2 {
+				inBase[g0.names[f]] = true
+			}
+		}
+		for _, gl := range g0.gorder {
+			baseGlobals[g0.globals[gl].name] = true
+		}
+		cur = saved
+	}
+	g := build()
+	if len(inBase) > 0 {
+		var keep []*ssa.Function
+		for _, f := range g.fns {
+			if !inBase[g.names[f]] {
+				keep = append(keep, f)
+			}
+		}
+		g.fns = keep
 	}
 	var translated []string
 	type skip struct {
@@ -2487,6 +2531,9 @@ func main() {
 		}
 	}
 	for _, gl := range g.gorder {
+		if baseGlobals[g.globals[gl].name] {
+			continue
+		}
 		sb.WriteString(g.globals[gl].def)
 		sb.WriteString("\n")
 	}
@@ -2495,7 +2542,12 @@ func main() {
 	inMain := map[*ssa.Function]bool{}
 	split := false
 	if cur.props != "" {
-		if txt, err := os.ReadFile(filepath.Join(filepath.Dir(filepath.Dir(outPath)), cur.props)); err == nil {
+		txt, err := os.ReadFile(filepath.Join(filepath.Dir(filepath.Dir(outPath)), cur.props))
+		if err != nil {
+			// the output goes elsewhere (a scratch file): the tie module of this checkout (ssagen runs in /verif/gossa)
+			txt, err = os.ReadFile(filepath.Join("..", "lean", cur.props))
+		}
+		if err == nil {
 			split = true
 			guarded := map[string]bool{}
 			for _, m := range regexp.MustCompile(`(?m)^when_translated\s+Gen\.(\S+)\s+in\s*$`).FindAllStringSubmatch(string(txt), -1) {
@@ -2521,7 +2573,7 @@ func main() {
 	var ub strings.Builder
 	untied := []string{}
 	for _, f := range g.order {
-		if g.aux[f.Pkg] {
+		if g.aux[f.Pkg] || inBase[g.names[f]] {
 			continue // defined by the generated file of its own target, which is imported
 		}
 		if split && !inMain[f] {
